@@ -165,7 +165,12 @@ fn parse_inner(
                             "signed8" => crate::UserPrmDataType::Signed8,
                             "signed16" => crate::UserPrmDataType::Signed16,
                             "signed32" => crate::UserPrmDataType::Signed32,
-                            dt => panic!("unknown data type {dt:?}"),
+                            dt => {
+                                return Err(parse_error(
+                                    format!("unknown data type {dt:?}"),
+                                    data_type_rule.as_span(),
+                                ))
+                            }
                         }
                     }
                     gsd_parser::Rule::bit => {
